@@ -120,7 +120,7 @@ def _beval(e, a):
         return not a["eB" if e.id == "blacklist" else "eW"]
     if isinstance(e, ast.Compare) and len(e.ops) == 1:
         left, op, right = norm(e.left), e.ops[0], norm(e.comparators[0])
-        if left == "mod_path" and right in ("blacklist", "whitelist") and isinstance(op, (ast.In, ast.NotIn)):
+        if left == a.get("subject", "mod_path") and right in ("blacklist", "whitelist") and isinstance(op, (ast.In, ast.NotIn)):
             v = a["B" if right == "blacklist" else "W"]
             return v if isinstance(op, ast.In) else not v
         if isinstance(op, (ast.Eq, ast.NotEq)) and right == "0":
@@ -133,7 +133,7 @@ def _beval(e, a):
     raise _NotBoolean(t)
 
 
-def _gate_truth_table(ctx, esf, assign):
+def _gate_truth_table(ctx, esf, assign, subject="mod_path"):
     """decide the gate: proceed must imply (not blacklisted) and (whitelisted or no whitelist)"""
     import itertools
 
@@ -144,16 +144,16 @@ def _gate_truth_table(ctx, esf, assign):
             if (B and eB) or (W and eW):
                 continue  # a member of an empty collection: infeasible
             rows += 1
-            a = {"B": B, "W": W, "eB": eB, "eW": eW}
+            a = {"B": B, "W": W, "eB": eB, "eW": eW, "subject": subject}
             if _beval(assign.value, a) and not ((not B) and (W or eW)):
-                bad.append(a)
+                bad.append({k: v for k, v in a.items() if k != "subject"})
     except _NotBoolean as x:
         ctx.need(False, "the blacklist/whitelist gate uses a construct outside the boolean abstraction: {}".format(x))
     ctx.count("gate_truth_table_rows", rows)
     ctx.ob(
         "C20.gate",
         esf,
-        "truth table of `proceed`",
+        "truth table of the blacklist/whitelist gate",
         not bad,
         ""
         if not bad
@@ -285,7 +285,8 @@ def _srcguard(ctx, index):
                     ctx.ob("C20.srcguard", f, n, True, line=n.lineno)
                     continue
                 modvars = sorted({x.value.id for x in ast.walk(v) if isinstance(x, ast.Attribute) and x.attr == "body" and isinstance(x.value, ast.Name)})
-                namevar = "name"
+                # the symbol's name: what emit_file_on_hierarchy hands to _emit_symbol as `name=`
+                namevar = next((norm(k.value) for c in calls for k in c.keywords if k.arg == "name" and isinstance(k.value, ast.Name)), "name")
                 r = None
                 for mv in modvars or ["existent_mod"]:
                     r = _exists_node_named(v, namevar, mv)
@@ -461,35 +462,34 @@ def run(ctx):
     # --------------------------------------------------------------- gate
     esf = index.func("cdd.compound.exmod.exmod_single_folder")
     ctx.need(gate_sites, "no write sites found in exmod_single_folder")
+    # the gate: the one local whose (single) definition tests membership in both the blacklist and the whitelist
+    # parameters, whatever it is called; the subject of the membership tests is the module being considered
+    pa = []
+    for n in iter_own(esf.node):
+        if isinstance(n, (ast.Assign, ast.AnnAssign)) and n.value is not None:
+            t = n.targets[0] if isinstance(n, ast.Assign) else n.target
+            if isinstance(t, ast.Name):
+                mem = [
+                    c
+                    for c in ast.walk(n.value)
+                    if isinstance(c, ast.Compare) and len(c.ops) == 1 and isinstance(c.ops[0], (ast.In, ast.NotIn)) and norm(c.comparators[0]) in ("blacklist", "whitelist")
+                ]
+                if {norm(c.comparators[0]) for c in mem} == {"blacklist", "whitelist"}:
+                    pa.append((n, t.id, {norm(c.left) for c in mem}))
+    ctx.need(len(pa) == 1, "expected exactly one definition of the blacklist/whitelist gate in exmod_single_folder, found {}".format(len(pa)))
+    gate_assign, gate_var, subjects = pa[0]
+    ctx.need(len(subjects) == 1, "the gate tests different subjects against the two lists: {}".format(sorted(subjects)))
     for f, node, kind, target, facts in gate_sites:
-        ok = facts.get("proceed") is True
+        ok = facts.get(gate_var) is True
         ctx.ob(
             "C20.gate",
             f,
             node,
             ok,
-            "" if ok else "write site not dominated by the blacklist/whitelist gate `proceed`",
+            "" if ok else "write site not dominated by the blacklist/whitelist gate",
         )
-    pa = [
-        n
-        for n in iter_own(esf.node)
-        if isinstance(n, (ast.Assign, ast.AnnAssign))
-        and any(
-            isinstance(t, ast.Name) and t.id == "proceed"
-            for t in (n.targets if isinstance(n, ast.Assign) else [n.target])
-        )
-    ]
-    ctx.need(len(pa) == 1, "expected exactly one assignment of `proceed`")
-    names = {x.id for x in ast.walk(pa[0].value) if isinstance(x, ast.Name)}
-    ok = {"blacklist", "whitelist", "mod_path"} <= names
-    ctx.ob(
-        "C20.gate",
-        esf,
-        pa[0],
-        ok,
-        "" if ok else "`proceed` no longer depends on blacklist, whitelist and mod_path",
-    )
-    _gate_truth_table(ctx, esf, pa[0])
+    ctx.ob("C20.gate", esf, "the gate depends on blacklist, whitelist and the module path", True, line=gate_assign.lineno)
+    _gate_truth_table(ctx, esf, gate_assign, subject=next(iter(subjects)))
     fp = [
         n
         for n in iter_own(entry.node)
